@@ -33,6 +33,9 @@ fn alpha() -> Vec<&'static str> {
         "noise",
         // the same columns as the first line, another text
         r#"{"m":"m","a":1,"b":"a","i":1,"z":0}"#,
+        // integers that are neighbours beyond 2^53 (equal once rounded to a double)
+        r#"{"m":"m","b":"a","i":9007199254740993}"#,
+        r#"{"m":"m","b":"a","i":9007199254740992}"#,
     ]
 }
 
@@ -341,6 +344,32 @@ pub fn run(ctx: &Ctx) -> i32 {
         });
         col.layer("DISTINCT over joins (joined file with repeated rows)", done, complete, json!({"statements": JOIN_STMTS, "max_len": jmax}));
     }
+    // many distinct rows: 12 000 different values, then every one of them again (nothing a bounded memory may forget)
+    {
+        let n = 12_000usize;
+        let mut lines: Vec<String> = (0..n).map(|i| format!(r#"{{"m":"m","i":{},"b":"v{}"}}"#, i, i % 7)).collect();
+        lines.extend((0..n).map(|i| format!(r#"{{"m":"m","i":{},"b":"v{}"}}"#, i, i % 7)));
+        let lrefs: Vec<&str> = lines.iter().map(|s| s.as_str()).collect();
+        for (text, want) in [("SELECT DISTINCT i FROM t", n), ("SELECT DISTINCT i, b FROM t", n), ("SELECT DISTINCT b FROM t", 7), ("SELECT DISTINCT COUNT(*) FROM t GROUP BY i", 1)] {
+            col.eval(1);
+            col.nontrivial(h64(&("many", text)));
+            let got = match sut::run_batch(&tables, &sut::parse(text).unwrap(), &lrefs) {
+                Outcome::Ok(t) => Some(t.rows.len()),
+                _ => None,
+            };
+            if got != Some(want) {
+                col.fail(fail(
+                    "distinct:many-rows".into(),
+                    format!("`{}` over {} different values, each twice: {:?} rows, expected {}", text, n, got, want),
+                    json!({"layer": "many", "statement": text}),
+                    json!(want),
+                    json!(got),
+                    1,
+                ));
+            }
+        }
+        col.layer("many distinct rows (12 000 values, each twice)", 4, true, json!({}));
+    }
     // DISTINCT statements through every driver
     {
         let input: Vec<String> = [0usize, 1, 12, 2, 0, 5, 6, 3, 11, 4, 4].iter().map(|i| al[*i].to_string()).collect();
@@ -374,6 +403,10 @@ pub fn replay(case: &J) -> Vec<Failure> {
             let seq: Vec<u8> = case["seq"].as_array().unwrap().iter().map(|x| x.as_u64().unwrap() as u8).collect();
             let lines: Vec<&str> = seq.iter().map(|i| al[*i as usize]).collect();
             seq_case(&tables, case["stmt"].as_u64().unwrap() as usize, &lines, case.clone(), 0, "seq").0
+        }
+        Some("many") => {
+            println!("note: the many-rows cases are replayed by re-running `./check C08 quick`");
+            vec![]
         }
         Some("join") => {
             let jt = sut::make_tables(&format!("{}\n{}", DEF, JOIN_DEF)).unwrap();
